@@ -682,7 +682,21 @@ class StmtMixin:
                     if isinstance(key, tuple) and key and key[0] == 'field':
                         self.st.ghost[key] = z3.Const(self.fresh_name('fieldarr'), self.st.ghost[key].sort())
                 self._havoc_set.add(-100)
-                self._havoc_all_fields = True
+                # fields of reference-only objects that the loop writes for the FIRST time have no array yet:
+                # a new epoch makes every later read of such a field use a new uninterpreted function, so nothing
+                # known about it before the loop survives the loop
+                self.st.ghost['field_epoch'] = self.st.ghost.get('field_epoch', 0) + 1
+                continue
+            if loc.startswith('$fields:'):
+                # '$fields:Class.attr' - only that attribute of reference-only objects of that class is written
+                cls_, _, attr_ = loc[len('$fields:'):].partition('.')
+                spec_ = (self.class_specs.get(cls_) or {}).get(attr_)
+                k_ = flat_kind(spec_) if spec_ is not None else None
+                if k_ is None:
+                    self.limit(f'loop modifies clause {loc!r}: no flat field {attr_!r} declared for class {cls_}', node)
+                self.st.ghost[('field', cls_, attr_)] = z3.Const(self.fresh_name(f'fieldarr_{cls_}_{attr_}'),
+                                                                  z3.ArraySort(RefSort, kind_sort(k_)))
+                self._havoc_set.add(-100)
                 continue
             if loc in ('$calls', '$yielded', '$sent'):
                 a = {'$calls': 0, '$yielded': -1, '$sent': -2}[loc]
